@@ -23,6 +23,7 @@ type IterRet struct {
 	Done bool `json:"done"`
 	K    int  `json:"k"`
 	Src  int  `json:"src"`
+	Del  bool `json:"del"` // a deletion entry (IncludeDeletions): the value is nil
 }
 type IterCall struct {
 	Call string          `json:"call"`
@@ -37,6 +38,9 @@ type iterStart struct {
 	LL   []bool     `json:"ll"`
 	Sb   int        `json:"sb"`
 	Eb   int        `json:"eb"`
+
+	IncDel bool `json:"incDel"`
+	SkipLL bool `json:"skipLL"`
 }
 
 // iterKeys maps the doubled domain 1..2N+1 to bytes: even positions are keys,
@@ -246,7 +250,7 @@ func ReplayIter(id int, d IterDims, calls []IterCall) (res Result) {
 			eb = []byte{}
 		}
 	}
-	iter, err := ss.StartIterator(sb, eb, moss.IteratorOptions{})
+	iter, err := ss.StartIterator(sb, eb, moss.IteratorOptions{IncludeDeletions: st.IncDel, SkipLowerLevel: st.SkipLL})
 	if err != nil {
 		res.Status, res.Infra = "infra", "StartIterator: "+err.Error()
 		return
@@ -263,6 +267,9 @@ func ReplayIter(id int, d IterDims, calls []IterCall) (res Result) {
 			if r.Done {
 				return "done"
 			}
+			if r.Del {
+				return fmt.Sprintf("%q=<deleted>", pos[2*r.K])
+			}
 			return fmt.Sprintf("%q=v%d", pos[2*r.K], r.Src)
 		}
 		note := ""
@@ -278,9 +285,19 @@ func ReplayIter(id int, d IterDims, calls []IterCall) (res Result) {
 			}
 		}
 		k, v, err := iter.Current()
+		isDel := false
+		if st.IncDel {
+			// with IncludeDeletions the entries are read with CurrentEx (Current returns a nil key for a deletion)
+			var ex moss.EntryEx
+			ex, k, v, err = iter.CurrentEx()
+			isDel = err == nil && ex.Operation == moss.OperationDel
+		}
 		got := "done"
 		if err == nil {
 			got = fmt.Sprintf("%q=%s", k, v)
+			if isDel {
+				got = fmt.Sprintf("%q=<deleted>", k)
+			}
 		} else if err != moss.ErrIteratorDone {
 			got = "err=" + err.Error()
 		}
